@@ -228,7 +228,7 @@ def pred_cases(ctx, W):
                 cs.append(pred_case(W, 'inj', life, k, F('9854.25'), rate))
     n_small = len(cs)
     dec = lambda lo, hi_, d: F(rnd.randint(int(lo * 10 ** d), int(hi_ * 10 ** d)), 10 ** d)
-    for _ in range(ctx.n(300, 2500)):
+    for _ in range(ctx.n(300, 1500)):
         life = rnd.choice([1, 2, 3, 5, 8, 12, 20, 30] + ([] if ctx.quick else [35, 60, 100]))
         k = rnd.choice([1, 2, 3, 4, 6] + ([] if ctx.quick else [12, 21, 100]))
         cap = ctx.n(120, 300 if rnd.random() < 0.9 else 1200)   # series length the kernel evaluates comfortably
@@ -346,7 +346,7 @@ def make_config(ctx, hyd, flash, op, dh=False):
 
 def run_configs(ctx):
     cfgs = [dict(c) for c in json.loads((CORPUS / 'run_seeds.json').read_text())]
-    m = ctx.n(1, 5)
+    m = ctx.n(1, 3)
     for hyd, flash in (('idx', False), ('idx', True), ('imp', False)):
         for op, w in ((None, 8), ('split', 7), ('artesian', 4), ('fast', 4), ('nosplit', 1), ('toofast', 1)):
             cfgs += [make_config(ctx, hyd, flash, op) for _ in range(w * m)]
@@ -689,7 +689,7 @@ def check_pump(ctx, specs):
 # whole runs through main() that differ in one well diameter only (Ramey off: fluid properties do not depend on it)
 def pair_configs(ctx):
     out = []
-    for i in range(ctx.n(6, 40)):
+    for i in range(ctx.n(6, 20)):
         hyd = 'idx' if i % 3 else 'imp'
         c = make_config(ctx, hyd, False, None)
         p = dict(l.split(', ', 1) for l in c['text'].splitlines())
@@ -846,13 +846,13 @@ def correspondence(ctx, proofs_ok=True):
         check_pred(ctx, pred_cases(ctx, W))
         lap('predictors')
     if want('friction'):
-        check_friction(ctx, json.loads((CORPUS / 'friction_seeds.json').read_text()) + [sweep_spec(ctx) for _ in range(ctx.n(35, 700))])
+        check_friction(ctx, json.loads((CORPUS / 'friction_seeds.json').read_text()) + [sweep_spec(ctx) for _ in range(ctx.n(35, 400))])
         lap('friction sweeps')
     if want('pump'):
-        check_pump(ctx, json.loads((CORPUS / 'pump_seeds.json').read_text()) + [pump_spec(ctx) for _ in range(ctx.n(12, 300))])
+        check_pump(ctx, json.loads((CORPUS / 'pump_seeds.json').read_text()) + [pump_spec(ctx) for _ in range(ctx.n(12, 150))])
         lap('hydraulic functions vs diameter')
     if want('hydro'):
-        check_hydro(ctx, json.loads((CORPUS / 'hydro_seeds.json').read_text()) + [hydro_spec(ctx) for _ in range(ctx.n(25, 600))])
+        check_hydro(ctx, json.loads((CORPUS / 'hydro_seeds.json').read_text()) + [hydro_spec(ctx) for _ in range(ctx.n(25, 300))])
         lap('hydrostatic correlation')
     if want('runs'):
         cfgs, pairs = run_configs(ctx), pair_configs(ctx)
